@@ -283,7 +283,7 @@ def retryLoopC (c : Cfg) (size fuel : Nat) (post : Meta → M Meta) : Nat → Na
     | .error e =>
       if c.kind = .none then pure (.error e)
       else do
-        let last ← liftM' (subU "max_retries-1" c.retries 1)
+        let last := c.retries - 1   -- `max_retries.saturating_sub(1)`
         if i = last then pure (.error e)
         else if i + 1 < 256 then retryLoopC c size fuel post n (i + 1) else .trap "retry:i+=1"
 
